@@ -191,3 +191,23 @@ def sany(module):
     )
     ok = p.returncode == 0 and "Semantic errors" not in p.stdout and "***Parse Error***" not in p.stdout
     return ok, p.stdout
+
+
+def run_apalache(module, init, inv, length, timeout=1800):
+    """One Apalache obligation on spec/<module>.tla.  Returns ("NoError" | "Error" | "failed: ...", wall seconds)."""
+    import subprocess
+    import time
+
+    d = scratch_dir("apa")
+    t0 = time.time()
+    try:
+        p = subprocess.run(["apalache-mc", "check", f"--init={init}", f"--inv={inv}", f"--length={length}", f"--out-dir={d}", f"{module}.tla"],
+                           cwd=SPEC, capture_output=True, text=True, timeout=timeout)
+        out = p.stdout + p.stderr
+        m = re.search(r"The outcome is: (\w+)", out)
+        outcome = m.group(1) if m else f"failed: rc={p.returncode} {out[-300:]}"
+    except Exception as e:  # noqa
+        outcome = f"failed: {type(e).__name__}: {e}"
+    finally:
+        shutil.rmtree(d, ignore_errors=True)
+    return outcome, round(time.time() - t0, 1)
